@@ -3,7 +3,7 @@ import collections
 import os
 
 from . import agglib, qlib
-from .common import pmap
+from .common import pmap, gstr, glist, coq_eval, parse_nested
 
 KEYS = ["ext", "dir", "is_dir", "mode", "uid", "length(name)"]
 WHERES = ["", "", "where size > 5", "where is_file = true", "where name like '%.txt'", "where size > 999999999999"]
@@ -80,6 +80,7 @@ def run(ctx):
         return j, rows, r, base_cols, raw, r0, ung, grp
 
     st = dict(agreed=0, distinct=set(), samples=[], hist=collections.Counter())
+    model_jobs = []
     for j, rows, r, base_cols, raw, r0, ung, grp in pmap(one, jobs):
         case = {"tree": j["root"], "query": r["query"], "plain_query": r0["query"]}
         if rows is None or raw is None or r["status"] != 0 or ung is None or grp is None:
@@ -156,6 +157,23 @@ def run(ctx):
         if bad_order:
             ctx.violation("impl-violates-spec", bad_order, input=case)
             continue
+        # the same rows under the comparator of the model (model.Criteria.crit_le, the subject of C08_order_groups / C05_sorted)
+        if j["order"] and len(rows) >= 2:
+            kd = lambda key: "KNum" if key in NUMERIC_KEYS else "KStr"
+            if j["order"].startswith("key") or (j["order"].startswith("unselected") and j["unsel"] == "key"):
+                ks_, vecs = [(kd(j["keys"][0]), not rev)], [[x[0]] for x in rows]
+            elif j["order"] in ("agg", "agg desc"):
+                ks_, vecs = [("KNum", not rev)], [[x[j["order_idx"]]] for x in rows]
+            elif j["order"] == "agg_then_key":
+                ks_, vecs = [("KNum", False), (kd(j["keys"][0]), True)], [[x[j["order_idx"]], x[0]] for x in rows]
+            else:
+                ks_, vecs = [("KNum", not rev)], [[str(len(groups[tuple(x[:nk])]))] for x in rows]
+            import re as _re
+            if any(k_ == "KNum" and not _re.match(r"^-?[0-9]+$", vec[i_]) for vec in vecs for i_, (k_, _a) in enumerate(ks_)):
+                st["hist"]["order_on_fractional_values_outside_model_comparator"] += 1     # model.Criteria.numkey reads whole numbers (C05's domain)
+            else:
+              model_jobs.append((case, "sorted_le %s %s" % (glist(["(%s, %s)" % (k_, "true" if a_ else "false") for k_, a_ in ks_], "(kind * bool)"),
+                                                          glist([glist([gstr(v) for v in vec], "str") for vec in vecs], "(list str)")), vecs))
         st["agreed"] += 1
         st["hist"]["groups_%s" % ("0" if not rows else "1" if len(rows) == 1 else "2-4" if len(rows) <= 4 else "5+")] += 1
         st["hist"]["keys_%d" % nk] += 1
@@ -164,10 +182,25 @@ def run(ctx):
             st["distinct"].add(r["query"])
         if len(st["samples"]) < 3 and 2 <= len(rows) <= 4:
             st["samples"].append({"query": r["query"], "rows": [list(x) for x in rows]})
+    if model_jobs:
+        hdr = """From Coq Require Import List NArith ZArith Bool.
+From FS Require Import lib.Str lib.Res lib.Dec model.TopN model.Criteria model.Datetime.
+Import ListNotations. Open Scope N_scope.
+Definition datekey_text (x : str) : Z := match parse_datetime 0 x with Det (Ok (a, _)) => a | _ => 0%Z end.
+Fixpoint sorted_le (ks : list (kind * bool)) (l : list (list str)) : bool :=
+  match l with a :: ((b :: _) as r) => crit_le numkey_digits datekey_text ks a b && sorted_le ks r | _ => true end.
+"""
+        mres = coq_eval(hdr, [e for _, e, _ in model_jobs], ctx.scratch, tag="c08o", shard=40)
+        for (case, _e, vecs), txt in zip(model_jobs, mres):
+            if txt.strip() != "true":
+                ctx.violation("correspondence-mismatch", "the order of the group rows is not sorted under model.Criteria.crit_le (%s)" % txt.strip()[:40], input=case, observed=vecs[:12], concrete=False,
+                              correspondence="binary GROUP BY .. ORDER BY vs model.Criteria.crit_le (C08_order_groups)")
+            else:
+                st["hist"]["order_sorted_under_model_comparator"] += 1
     from .common import replay_generic_known
     replay_generic_known(ctx, 'C08')
     ctx.coverage.update(
         evaluations=len(jobs), distinct_nontrivial=len(st["distinct"]), traces_validated_against_impl=st["agreed"],
-        rule="random trees x grouping keys from ext, dir, is_dir, mode, uid, length(name) and pairs x 1-3 aggregates (plain, or wrapped in an ordinary function: abs(sum(..)), concat(count(*), ..)) x optional WHERE x optional ORDER BY (asc/desc) on the key, on any aggregate (by name or position), on (aggregate desc, key), or on a key / aggregate that is NOT selected: one row per distinct key value among the matching entries (from the same query without aggregates), each group's aggregates = exact aggregates of its members, group COUNTs and SUMs add up to the ungrouped COUNT and SUM of the binary, ordered when requested. non-trivial = at least two groups",
+        rule="random trees x grouping keys from ext, dir, is_dir, mode, uid, length(name) and pairs x 1-3 aggregates (plain, or wrapped in an ordinary function: abs(sum(..)), concat(count(*), ..)) x optional WHERE x optional ORDER BY (asc/desc) on the key, on any aggregate (by name or position), on (aggregate desc, key), or on a key / aggregate that is NOT selected: one row per distinct key value among the matching entries; ordered rows are also judged by the model comparator (model.Criteria.crit_le evaluated by coqc); (from the same query without aggregates), each group's aggregates = exact aggregates of its members, group COUNTs and SUMs add up to the ungrouped COUNT and SUM of the binary, ordered when requested. non-trivial = at least two groups",
         samples=st["samples"], distribution=dict(st["hist"]))
     return ctx.finish(trusted=["group rows are compared as a set unless ORDER BY is given (HashMap iteration order)"])
